@@ -118,6 +118,8 @@ type Interp struct {
 	samples      []string
 	varBound     map[*Term]uint64
 	ulidN        int
+	copyMerge    bool
+	satCache     map[*Term]bool
 }
 
 func NewInterp(prog *ssa.Program, cfg Config) (*Interp, error) {
@@ -237,7 +239,26 @@ func (in *Interp) feasible(t *Term) bool {
 	if in.unsatCache[t] {
 		return false
 	}
+	if in.satCache[t] {
+		return true // stale "sat" is safe: it only means less pruning
+	}
+	defer func() {
+		if in.satCache == nil {
+			in.satCache = map[*Term]bool{}
+		}
+		if !in.unsatCache[t] {
+			in.satCache[t] = true
+		}
+	}()
+	ft := in.cfg.TimeoutMs
+	if ft > 5000 {
+		ft = 5000
+	}
+	in.sol.SetQueryTimeout(ft)
 	r := in.sol.CheckWith(t)
+	if in.sol.dead {
+		in.restartSolver()
+	}
 	if r == Unsat {
 		in.unsatCache[t] = true
 		return false
@@ -354,6 +375,7 @@ func (in *Interp) violationIf(cond *Term, kind, msg string) bool {
 		return false
 	}
 	s := in.sol
+	s.SetQueryTimeout(in.cfg.TimeoutMs)
 	s.Push()
 	s.Assert(cond)
 	r := s.Check()
